@@ -252,6 +252,18 @@ impl SessionStorageBackend for SqliteSessionStore {
     /// The server-side state is left unchanged.
     #[tracing::instrument(name = "Change id for server-side session record", level = tracing::Level::INFO, skip_all)]
     async fn change_id(&self, old_id: &SessionId, new_id: &SessionId) -> Result<(), ChangeIdError> {
+        // An expired record that has not been reclaimed yet may still be stored under `new_id`.
+        // It must not get in the way of the renaming (it would trip the primary key constraint
+        // and be reported as a duplicate id), so we get rid of it first.
+        let reclaim = sqlx::query(
+            "DELETE FROM sessions \
+            WHERE id = ? AND deadline <= unixepoch()",
+        )
+        .bind(new_id.inner().to_string());
+        if let Err(e) = reclaim.execute(&self.0).await {
+            return Err(ChangeIdError::Other(e.into()));
+        }
+
         let query = sqlx::query(
             "UPDATE sessions \
             SET id = ? \
